@@ -516,3 +516,19 @@ where
         }
     }
 }
+
+/// Read-only accessors for the verification harness (cargo feature `verif`).
+#[cfg(feature = "verif")]
+impl<T: Value, N: Unsigned, U: UpdateMap<T>> List<T, N, U> {
+    pub fn verif_tree(&self) -> &Arc<Tree<T>> {
+        &self.interface.backing.tree
+    }
+
+    pub fn verif_backing_len(&self) -> usize {
+        self.interface.backing.length.as_usize()
+    }
+
+    pub fn verif_depth(&self) -> usize {
+        self.interface.backing.depth
+    }
+}
